@@ -14,6 +14,7 @@ mod suite_axes;
 mod suite_build;
 mod suite_entity;
 mod suite_ffixed;
+mod suite_fanyorder;
 mod suite_fmap;
 mod suite_fclone;
 mod suite_forest;
@@ -36,6 +37,7 @@ mod html_gen;
 mod html_oracle;
 mod html_tok;
 mod suite_html;
+mod suite_lex;
 mod tree;
 
 use common::Sink;
@@ -73,6 +75,7 @@ fn main() {
         "fmap" => suite_fmap::run(seed, count, tier, &mut sink),
         "build" => suite_build::run(seed, count, tier, &mut sink),
         "fclone" => suite_fclone::run(seed, count, tier, &mut sink),
+        "lex" => suite_lex::run(seed, count, tier, &mut sink),
         _ => {
             eprintln!("unknown suite {}", suite);
             std::process::exit(2);
